@@ -67,6 +67,7 @@ const Prelude = `
 (assert (forall ((s SList)) (! (= (lsub s 0 (llen s)) s) :pattern ((lsub s 0 (llen s))))))
 (assert (forall ((a SList) (b SList) (c SList)) (! (= (lapp (lapp a b) c) (lapp a (lapp b c))) :pattern ((lapp (lapp a b) c)))))
 (assert (forall ((a SList) (s SList)) (! (=> (= (llen s) 1) (= s (lunit (lat s 0)))) :pattern ((lapp a s)))))
+(assert (forall ((a SList) (b SList) (j Int)) (! (=> (and (<= 0 j) (< j (llen b))) (= (lat (lapp a b) (+ j (llen a))) (lat b j))) :pattern ((lat b j) (lapp a b)))))
 ; Go's truncated division / remainder on top of SMT-LIB's Euclidean ones
 (define-fun gdiv ((a Int) (b Int)) Int (ite (>= a 0) (div a b) (- (div (- a) b))))
 (define-fun gmod ((a Int) (b Int)) Int (- a (* b (gdiv a b))))
